@@ -197,16 +197,38 @@ class M(Model):
         d2, cap2, pos2 = self._sim(d, cap, pos, [DEPOT] * self.V)
         return d2.sum() > 0 and T + 1 + self._need(d2, cap2, pos2) <= target
 
+    def shuttle_local_time(self, s0):
+        """(driver hook, optional) local time the 'shuttle' variant reaches on this instance: twice the summed
+        depot distance of the customers with demand.  Lets a driver pre-select, from a cheap vmapped reset over
+        many keys, the rare instances (depot in a corner) on which a single vehicle gets close to the declared
+        local_times / distance bounds, and then play them with solve steps whose first r has r % 4 == 3."""
+        xy = np.asarray(s0.nodes.coordinates, np.float64)
+        d = np.asarray(s0.nodes.demands).astype(np.int64).reshape(-1)
+        return float(2.0 * (np.linalg.norm(xy - xy[DEPOT], axis=1) * (d > 0)).sum())
+
+    def _shuttle(self, s, d, cap, pos, w):
+        out = [DEPOT] * self.V
+        if pos[w] == DEPOT:
+            cust = [int(c) for c in np.flatnonzero((d > 0) & (d <= cap[w])) if c > 0]
+            if cust:
+                xy = np.asarray(s.nodes.coordinates, np.float64)
+                far = np.linalg.norm(xy[cust] - xy[DEPOT], axis=1)
+                out[w] = cust[int(np.argmax(far))]
+        return out
+
     def solve_action(self, s, r=0):
         """Constructive joint move: every vehicle drives to a legal customer nobody else picked in this step
         (r chooses which; ~1/4 of the time a vehicle goes to the depot instead), or to the depot when no
         customer is left for it.  Uniform legal play mostly keeps the vehicles at the depot (first mask entry).
 
-        Three per-episode variants, selected by r of the episode's first step (remembered per instance, r of
-        later steps is independent): r % 3 == 0 'finish as late as possible' - the vehicles idle at the depot
+        Four per-episode variants, selected by r of the episode's first step (remembered per instance, r of
+        later steps is independent): r % 4 == 0 'finish as late as possible' - the vehicles idle at the depot
         (always legal) as long as the remaining work still fits, so that the episode completes after exactly
         2N-1 steps, i.e. with final step_count == 2N, the last count that is not "step_count > 2N";
-        r % 3 == 1 finishes one step earlier (2N-2 steps); r % 3 == 2 plays freely."""
+        r % 4 == 1 finishes one step earlier (2N-2 steps); r % 4 == 2 plays freely; r % 4 == 3 'shuttle' -
+        exactly one vehicle (number (r // 4) % V) works, alternating between the depot and the customer
+        farthest from the depot that it can still serve, while the others wait at the depot: this maximises
+        that vehicle's local time and distance (all moves legal)."""
         r = int(r)
         d, cap, pos = self._raw(s)
         if d.shape != (self.N + 1,) or ((pos < 0) | (pos > self.N)).any() or (cap < 0).any():
@@ -218,8 +240,10 @@ class M(Model):
         if T == 0:
             if len(self._variant) > 4096:
                 self._variant.clear()
-            self._variant[key] = r % 3
-        var = self._variant.get(key, sum(key[:64]) % 3)
+            self._variant[key] = (r % 4, (r // 4) % self.V)
+        var, worker = self._variant.get(key, (sum(key[:64]) % 4, 0))
+        if var == 3:
+            return np.asarray(self._shuttle(s, d, cap, pos, worker), np.int64)
         rnd = self._random_move(d, cap, r)
         if var == 2:
             return np.asarray(rnd, np.int64)
